@@ -532,6 +532,16 @@ func (in *Interp) convert(from, to types.Type, x Value) Value {
 		}
 		return Value{K: KOpaque, R: poison("float")}
 	}
+	if fb, ok := fu.(*types.Basic); ok && fb.Kind() == types.Float64 {
+		if tw, tsigned, ok := intInfo(tu); ok && tw == 64 && tsigned {
+			if f, isF := x.R.(*floatI); isF {
+				// int64(f) for an integral f of magnitude at most 2^63: the magnitude's bits, negated for a negative
+				// value (2^63 itself is out of range; amd64 yields the minimum, which is the same bit pattern)
+				c := in.Ctx
+				return mkSymInt(c.Ite(f.neg, c.Un(smt.OpNeg, f.mag), f.mag))
+			}
+		}
+	}
 	unsupported("convert %s -> %s", from, to)
 	return Value{}
 }
